@@ -394,6 +394,37 @@ pub fn run(tier: &str) -> Result<Report, String> {
         // anchor: the plain results themselves are validated against the oracle by C01; count tables here
         rep.traces_validated += fs.len() as u64;
     }
+    // graphs whose unit set was narrowed after construction (SymbolicAsyncGraph::restrict to every second / the last colour), with
+    // more spare variable sets than the formulae need (k = 3): substitution must work inside the narrowed universe as well
+    {
+        let mut n_restricted = 0u64;
+        for b in nets.iter().filter(|b| b.cols.len() >= 2 && which.contains(&b.name.as_str())) {
+            for keep in [(0..b.cols.len()).step_by(2).collect::<Vec<_>>(), vec![b.cols.len() - 1]] {
+                let rb = b.restrict_colours(&keep);
+                let ctx = NetCtx::new(std::sync::Arc::new(rb), Labels::default(), "none");
+                let mut fs = Gen::new(Alphabet::all_ops(ctx.nprops(), 2)).closed_up_to(3);
+                fs.extend(templates(&ctx.user, false, 2));
+                let res: Vec<(u64, Option<Violation>)> = fs
+                    .par_iter()
+                    .map(|f| {
+                        let (n, bad) = check(f, &ctx.user, &ctx.b.graph, 2, false);
+                        let v = if bad.is_empty() { None } else { Some(Violation { case: json!({"kind": "none"}), what: format!("on {} (unit set restricted to colours {keep:?}): {}", b.name, bad.join(" | ")), size: f.size() }) };
+                        (n, v)
+                    })
+                    .collect();
+                for (n, v) in res {
+                    total += n;
+                    n_restricted += n;
+                    if let Some(v) = v {
+                        if rep.violations.len() < 100 {
+                            rep.violations.push(v);
+                        }
+                    }
+                }
+            }
+        }
+        rep.add_count("substitution_cases_on_graphs_with_a_restricted_unit_set", n_restricted);
+    }
     // one public evaluation context, the SAME surrounding formula evaluated again after its label was bound to the
     // pre-computed result of another closed sub-formula (EvalContext and eval_node are public; a user who substitutes many
     // results into one surrounding formula extends one context again and again): each round must equal the full formula
